@@ -121,7 +121,8 @@ def symbolic_pool(cls: str, prefix: str = "p") -> Dict[str, V]:
     return sh
 
 
-SHARED_IMMUTABLE = ("clsname",)
+# fields assigned only in __init__ (checked mechanically from the AST by unit `callgraph`): never havocked
+SHARED_IMMUTABLE = ("clsname", "_name", "_idx", "_func", "_args", "_kwargs", "_end_callback", "_cancel_callback")
 
 
 def start_group_name(k):
@@ -183,6 +184,7 @@ def inv_clauses(sh, simple: bool = False) -> List[Tuple[str, z3.ExprRef, Tuple[s
                                                                          z3.And(p.M.has(sel(p.grp, t)), p.Mset(sel(p.grp, t), t)))), ("C07", "C08")))
     cl.append(("I10b.meta-sets-hold-spawners", z3.ForAll([g, t], z3.Implies(z3.And(p.M.has(g), p.Mset(g, t)), z3.And(t != NONE, p.is_spawner(t), sel(p.grp, t) == g))), ("C07",)))
     cl.append(("I10c.cancelled-metas-are-spawners", z3.ForAll([t], z3.Implies(p.MC.has(t), z3.And(t != NONE, p.is_spawner(t)))), ("C07",)))
+    cl.append(("I11.closed-means-no-live-spawner", z3.Implies(p.closed, z3.ForAll([t], z3.Implies(p.is_spawner(t), z3.Or(lt == L_DONE, sel(p.creq, t))))), ("C08",)))
     cl.append(("I12.waiters-only-when-full", z3.Implies(p.sem.P > 0, z3.Or(v.eq_int(0), p.sem.g > 0)), ("C01",)))
     if simple:
         sc = sh["_start_calls"].t
@@ -305,8 +307,28 @@ class PoolTheory(Theory):
     def shared_keys(self, st: St):
         return [k for k in st.sh if k not in SHARED_IMMUTABLE]
 
+    loops_need_inv = False  # set by thread units whose loops contain observation points
+
+    def loop_head_check(self, st: St, label: str) -> None:
+        if self.loops_need_inv:
+            self.check_point(st, "loophead:" + label)
+
     def after_loop_havoc(self, s: St, st0: St, mod_shared) -> None:
-        pass
+        """the loop head of a thread loop is reached only in states where Inv was just checked"""
+        if not self.loops_need_inv or not mod_shared:
+            return
+        for _n, f, _p in self.inv(s.sh):
+            s.assume(f)
+        for _n, f, _p in self.guar(st0.sh, s.sh, fresh("other", Ref)):
+            if _n.startswith("G6"):
+                continue
+            s.assume(f)
+        for f in rely_me(st0.sh, s.sh, s.me):
+            s.assume(f)
+        s.assume(z3.Implies(z3.Not(self.ghost(st0, "creq", s.me)), z3.BoolVal(True)))
+        self.instantiate_for_me(s)
+        s.aux["seg0"] = dict(s.sh)
+        s.aux["seg0_inv"] = True
 
     # --- observation points ------------------------------------------------------------------------------
     def check_point(self, st: St, label: str) -> None:
@@ -488,6 +510,8 @@ class PoolTheory(Theory):
                 raise Unsupported("enumerate() of " + type(pos_d[0]).__name__)
             inner = it.item
             it2 = Iter(it.count, lambda i: TupleV([IntV(i), inner(i)]), it.facts, "enumerate")
+            if hasattr(it, "seq"):
+                it2.seq = it.seq
             return [(st, IterV(it2))]
         if name == "range":
             if len(pos_d) != 1 or not isinstance(pos_d[0], IntV):
@@ -539,11 +563,32 @@ class PoolTheory(Theory):
     def lookup_builtin_value(self, name):
         return None
 
+    set_layouts = None  # unit hint: local variable name -> element layout of `set()` literals
+
     def guess_set_layout(self, fr, node):
+        if fr.qual.endswith(".get_group_ids"):
+            return IntL()
         return RefL()
 
     def new_semaphore(self, st, fr, pos):
-        raise Unsupported("Semaphore() outside a unit that declares it")
+        """Semaphore(value=1): counter = value, no waiters, no outstanding tokens"""
+        if not pos:
+            v = ExtV(False, 1)
+        elif isinstance(pos[0], IntV):
+            v = ExtV(False, pos[0].t)
+        elif isinstance(pos[0], ExtV):
+            v = pos[0]
+        else:
+            raise Unsupported("Semaphore(<non-number>)")
+        out = []
+        for s, neg in self.ip.branch(st, v.lt_int(0), "sem-negative"):
+            if neg:
+                out.append((s, Exit(Exit.RAISE, ExcV("ValueError", []))))
+                continue
+            sem = SemV(v, z3.IntVal(0), z3.IntVal(0), z3.IntVal(0), fresh("semobj", Ref))
+            sem.tokarr = "tok" if fr.qual.endswith(".__init__") else "mtok"
+            out.append((s, sem))
+        return out
 
     # --- methods on container / opaque values -----------------------------------------------------------
     def call_method(self, st, fr, recv: V, name: str, pos, kws, rest_kw, node):
@@ -935,12 +980,16 @@ class PoolTheory(Theory):
         if any(fr.qual == q or fr.qual.startswith(q) for q in self.CORO_CTOR_FRAMES):
             # U3: calling a coroutine function creates a coroutine and runs no user code; it may raise
             st.trace.append(("corocall", f.t, args, dict(kws)))
+            if getattr(self, "on_corocall", None) is not None:
+                self.on_corocall(st, f.t, args, dict(kws))
             ok = st.fork()
             ok.tags.append("call:ok")
             r = fresh("coro", Ref)
             ok.assume(z3.And(r != NONE, z3.Select(z3.Const("is_coro", A_RB), r)))
             bad = st.fork()
             bad.tags.append("call:raises")
+            if getattr(self, "on_call_raised", None) is not None:
+                self.on_call_raised(bad)
             return [(ok, RefV(r, "coro")), (bad, Exit(Exit.RAISE, self.user_exc()))]
         loc = self.callout_loc(fr)
         label = {L_CCB: "cancel-callback", L_ECB: "end-callback"}.get(loc, "callout")
